@@ -1,19 +1,26 @@
 from ..driver import Prop, Suite
-from .. import ringgen
+from .. import ringgen, unigen
 
 class C01(Prop):
     pid = "C01"; prop_file = "C01.v"; design_ref = "DESIGN.md §4 C01"
-    rule = ("cases: random programs (publish/consume/length) for 2-4 threads on AtomicMove<u32,N>, N in {2,4,8}, random bursty schedule then round-robin to completion; "
-            "non-trivial = a context switch inside a reserve->publish or reserve->release window AND at least one full or empty answer; distinct by sha1 of the case line")
-    trusted_base = ["modelled, not verified: the Uni channel glue above the ring is covered only as far as the suites listed in this evidence reach it"]
+    rule = ("cases: random programs for 2-5 threads, random bursty schedule then round-robin; suites: raw AtomicMove ring, raw FullSyncMove ring "
+            "(publish/consume/length), movable atomic and movable full-sync Uni channels (send/send_with/poll/executor-driven streams/cancel_all/length, "
+            "N in {2,4,8}, MAX_STREAMS in {1,2}, 1..MAX_STREAMS streams); non-trivial = a context switch inside another thread's operation AND a full/empty/pending answer; distinct by sha1")
+    trusted_base = ["modelled, not verified: the crossbeam and the two zero-copy Uni channels are not yet in a lock-step suite of this property (their ring / pool components are)"]
     assumptions = ["payload type u32 (no destructor)", "threads are OS threads serialised by the baton scheduler: one shared access per grant"]
     def suites(self, tier, rng):
-        n = 300 if tier == "quick" else 4000
-        return [Suite("ring", ringgen.HEADER, [ringgen.gen_case(rng) for _ in range(n)])]
+        n = 150 if tier == "quick" else 2500
+        return [Suite("ring", ringgen.HEADER, [ringgen.gen_case(rng) for _ in range(n)]),
+                Suite("fsring", ringgen.HEADER, [ringgen.gen_case(rng, kind="fsring") for _ in range(n)]),
+                Suite("uni_move_atomic", unigen.HEADER, [unigen.gen_case(rng, "move_atomic") for _ in range(n)]),
+                Suite("uni_move_full_sync", unigen.HEADER, [unigen.gen_case(rng, "move_full_sync") for _ in range(n)])]
     def oracle(self, case, recs):
+        if "chan" in case.meta: return unigen.uni_oracle_exactly_once(case, recs)
         return ringgen.oracle_exactly_once(case, recs)
     def nontrivial(self, case, recs):
+        if "chan" in case.meta: return unigen.uni_nontrivial(case, recs)
         return ringgen.nontrivial_window(case, recs)
     def parse_replay(self, text):
         lines = [l for l in text.splitlines() if l.strip() and not l.startswith("#")]
-        return Suite("replay", ringgen.HEADER, [ringgen.parse_case_line(l) for l in lines])
+        cases = [unigen.parse_case_line(l) if l.startswith("uni ") else ringgen.parse_case_line(l) for l in lines]
+        return Suite("replay", unigen.HEADER + "\n" + ringgen.HEADER, cases)
